@@ -472,9 +472,13 @@ func (u *Unit) zeroOf(t types.Type) Term {
 	if z := u.zeroOfSort(sort); z.S != "" {
 		return z
 	}
+	if at, isArr := t.Underlying().(*types.Array); isArr && strings.HasPrefix(sort, "(Array ") {
+		// an array of structs: every element is the zero struct
+		return constArray(sort, u.zeroOf(at.Elem()))
+	}
 	st, key, ok := u.transparentStruct(t)
 	if !ok {
-		panic("zeroOf: " + t.String())
+		u.unsupportedf("zero value of %s", t.String())
 	}
 	var fs []Term
 	for i := 0; i < st.NumFields(); i++ {
